@@ -2,7 +2,7 @@
     the file-system finders use the same sorted_search over their own star search). *)
 From Coq Require Import List String Ascii Bool Arith Permutation Sorted.
 From Spil Require Import Base.Str Base.Dict Base.Outcome Regex.Re Conf.Conf Conf.WF Sid.Sid
-  Search.Unfold Search.FindList Search.GlobProofs Search.FindListProofs Search.UnfoldProofs.
+  Search.Unfold Search.FindList Search.Finders Search.GlobProofs Search.FindListProofs Search.UnfoldProofs Search.FindersProofs FS.Fs.
 From SpilGen Require Hamlet.
 Import ListNotations.
 Local Open Scope string_scope.
@@ -39,6 +39,31 @@ Theorem C09_sorted_search : forall L qs items l, sorted_search L qs items = Ok l
      NoDup (map k l)).
 Proof. exact sorted_search_spec. Qed.
 Print Assumptions C09_sorted_search.
+
+(* the answer does not depend on which Finder serves it: two star searches enumerating the same candidate SET
+   (in any order, with any duplicates) give the identical ">" answer *)
+Theorem C09_finder_independent : forall Ld star1 star2,
+  (forall qs l1 l2, star1 qs = Ok l1 -> star2 qs = Ok l2 -> forall e, In e l1 <-> In e l2) ->
+  (forall qs, (exists l, star1 qs = Ok l) <-> (exists l, star2 qs = Ok l)) ->
+  forall qs, match sorted_search_g Ld star1 qs, sorted_search_g Ld star2 qs with
+             | Ok l1, Ok l2 => l1 = l2
+             | Raise _, Raise _ => True
+             | _, _ => False
+             end.
+Proof. exact set_equal_stars. Qed.
+Print Assumptions C09_finder_independent.
+
+(* junk in the tree does not change a ">" answer *)
+Theorem C09_junk : forall Ld cfg F F',
+  (forall p, In p (dkeys F) -> In p (dkeys F')) ->
+  (forall p, In p (dkeys F') -> ~ In p (dkeys F) -> sid_factory Ld (FromPath p cfg) = Ok empty_sid) ->
+  forall qs, match sorted_search_g Ld (paths_star Ld F cfg) qs, sorted_search_g Ld (paths_star Ld F' cfg) qs with
+             | Ok l1, Ok l2 => l1 = l2
+             | Raise _, Raise _ => True
+             | _, _ => False
+             end.
+Proof. exact sorted_search_junk. Qed.
+Print Assumptions C09_junk.
 
 (* the repaired defect (D11): names containing a character below "/" *)
 Example C09_instance :
